@@ -32,11 +32,12 @@ def parse_hist(out):
         f = line.split("\t")
         if f[0] == "H":
             hs[int(f[1])] = {"hid": int(f[1]), "pipeline": f[2], "opt": int(f[3]), "history": f[4], "origin": f[6], "same_name": len(f) > 7 and f[7] == "1",
-                             "sources": [], "feats": [], "reqs": []}
+                             "sources": [], "feats": [], "names": [], "reqs": []}
         elif f[0] == "S":
             h = hs[int(f[1])]
             h["feats"].append(f[3])
             h["sources"].append(f[4])
+            h["names"].append(f[5] if len(f) > 5 else "src%d" % int(f[2]))
         elif f[0] == "R" and len(f) >= 19:
             hs[int(f[1])]["reqs"].append({
                 "i": int(f[2]), "kind": f[3], "src": int(f[4]),
@@ -55,11 +56,16 @@ def corpus_text(h, upto=None):
     hist = h["history"].split()
     if upto is not None:
         hist = hist[:upto + 1]
-    t = f"#pipeline {h['pipeline']} {h['opt']}\n#history {' '.join(hist)}\n" + ("#names same\n" if h.get("same_name") else "")
+    t = f"#pipeline {h['pipeline']} {h['opt']}\n#history {' '.join(hist)}\n"
+    for i, n in enumerate(h.get("names", [])):
+        t += f"#srcname {i} {unesc(n)}\n"
     for s in h["sources"]:
-        t += "#source\n" + unesc(s)
-        if not t.endswith("\n"):
-            t += "\n"
+        u = unesc(s)
+        exact = "\r" in u or not u.endswith("\n") or any(l != l.rstrip() for l in u.split("\n")) or u.endswith("\n\n")
+        if exact:       # line endings / trailing blanks / final newline are the point: keep the exact bytes
+            t += "#sourcehex " + u.encode("utf-8").hex() + "\n"
+        else:
+            t += "#source\n" + u
     return t
 
 
@@ -100,7 +106,7 @@ def classify(r):
 
 
 def run_hist(ctx, exe, files, n, prof, stats):
-    cmd = [exe, "--mode", "hist", "--seed", str(ctx.seed), "--n", str(n)]
+    cmd = [exe, "--mode", "hist", "--seed", str(ctx.seed), "--n", str(n), "--families", str(stats.get("families_per_run", 0) if n else 0)]
     if files:
         cmd += ["--files", ",".join(files)]
     rc, out = vlib.sh(cmd, timeout=1500)
@@ -112,6 +118,11 @@ def run_hist(ctx, exe, files, n, prof, stats):
     for line in out.splitlines():
         if line.startswith("X\t"):
             ctx.broken.append("corpus file unreadable: " + line[2:])
+        elif line.startswith("K\t"):
+            f = line.split("\t")
+            stats["key_pairs_probed"] += 1
+            if f[4] == "1":
+                stats["key_collisions"].append(f"{f[5]} / {f[6]}")
     for h in hs:
         stats["histories"] += 1
         outside = h["origin"] == "generated-outside-known"
@@ -181,7 +192,8 @@ def run(ctx):
     n_proto, n_layout, n_hist, n_det = (1500, 500, 500, 40) if quick else (15000, 5000, 6000, 400)
     corpus = sorted(glob.glob(os.path.join(vlib.VERIF, "corpus", "C16", "*.hist")))
     stats = {"histories": 0, "requests": 0, "served_from_cache": 0, "agree": 0, "agree_outside_known": 0, "divergent": 0,
-             "divergent_outside_known": 0, "skipped_after_exec_divergence": 0, "known": {}, "distinct": set()}
+             "divergent_outside_known": 0, "skipped_after_exec_divergence": 0, "known": {}, "distinct": set(),
+             "families_per_run": 6 if quick else 40, "key_pairs_probed": 0, "key_collisions": []}
     total_eval = 0
     distinct_proto, distinct_layout, distinct_det = set(), set(), set()
     for prof in profiles:
@@ -295,13 +307,25 @@ def run(ctx):
                                      "(file,opt) pairs compiled to identical bytes in 8 processes + in-process": len(distinct_det)}
     st = dict(stats)
     st.pop("distinct")
+    coll = st.pop("key_collisions")
     ctx.cov["history_oracle"] = st
+    ctx.cov["hash_injectivity_probe"] = {
+        "what": "hypothesis `hash injective on the sources used` of cache_transparent, checked on the family pools: for every ordered pair of "
+                "distinct (name, content) a cacheable probe stage in a real Pipeline must run again for the second request (a shared key would serve it from the cache)",
+        "pairs_probed": stats["key_pairs_probed"], "collisions": len(coll), "examples": coll[:6]}
+    if coll:
+        ctx.broken.append("hash-injectivity hypothesis of cache_transparent fails on the explored pools: %d pairs of different (name, content) "
+                          "share a cache key, e.g. %s" % (len(coll), "; ".join(sorted(set(coll))[:4])))
     ctx.cov["rule"] = (
         "hist: seeded histories (2-8 requests, execute/compile) over pools of 1-4 generated sources (string recursion, nested "
         "functions with constants, closures, loops, typed recursion, mutable globals, call sites; 1 in 6 broken in some stage) on the "
         "standard / compilation / stdlib-enabled pipelines at -O0..-O3; each request also runs on a cache-cleared twin, a twin whose "
         "Compiled-producing stages are uncacheable, and a fresh pipeline; value class+payload and captured output must agree. every request of "
         "every history must agree (40% of the histories use sources without heap constants and one request kind only). "
+        "families: per run 6 (quick) / 40 (thorough) families of 9 near-identical sources -- base, CRLF line endings, trailing blanks, no final "
+        "newline, extra blank lines, blank line inside a multi-line string literal, other literal content, trailing tab in the literal, all under "
+        "the SAME name, plus the base text under another name; a comparison chain turns the literal's content into the returned value; every "
+        "ordered pair [i, j] and three complete orders run against one pipeline, and every pair goes through the key-injectivity probe. "
         "proto: random stage lists (names incl. duplicates and 'vm' in the middle, cacheable flags, stateful counters, failing/Value/"
         "Compiled-with-k-heap-objects actions) x histories, compared with the Coq model; layout: top-level let/fn declaration lists with "
         "re-declarations; det: generated sources + imports of std modules in all three forms + 0-3 user modules + up to 32 extra globals, "
